@@ -1,4 +1,4 @@
-import QibGen.GatesReal
+import QibProofs.Lemmas.GateBridge
 import QibProofs.Lemmas.GateAlgebra
 import QibProofs.Lemmas.GateFlat
 import Mathlib.Tactic.NormNum
@@ -8,7 +8,7 @@ C02 — Gate matrices equal their mathematical definitions (property theorems on
 The left-hand sides are the definitions regenerated from the Python source; the right-hand sides are
 the textbook definitions (`NormedSpace.exp` of the generator, literal Pauli matrices, …).
 -/
-open Matrix NormedSpace Complex QibGen Qib.GateAlgebra
+open Matrix NormedSpace Complex QibGen QibRef Qib.GateAlgebra
 
 namespace Qib.C02
 
@@ -277,5 +277,13 @@ theorem C02_ctrlIndex_injective (cs ds : List Bool) (hl : cs.length = ds.length)
   exact Qib.GateFlat.ofBitsMSB_injective cs ds hl h
 
 example : Qib.Gate.ctrlIndex [true, false, false] = 4 := by decide
+
+/-! ### The same statements about the forms regenerated from the CURRENT source
+
+`QibSrc.K.mat` / `QibSrc.K.inv` are regenerated from `src/qib/operator/gates.py` on every run; `QibBridge` proves on every run that they are
+equal to the reference forms `QibRef.K.mat` / `QibRef.K.inv` used above (by a tactic that is independent of how the source spells the
+closed form), so every theorem above is a theorem about what the code says now. -/
+
+theorem C02_source_agrees : QibBridge.SrcAgrees := QibBridge.srcAgrees
 
 end Qib.C02
